@@ -34,11 +34,14 @@ def classify(inst):
         return "fmt"
     if inst.foreign:
         return "foreign"
+    last = n.split("::")[-1]
+    if last[:1].isupper() and "(" not in last:
+        return "ctor"           # tuple-struct / enum-variant constructor function
     return "unknown"
 
 
-DETERMINISTIC_OK = {"intrinsic", "alloc", "panic", "arch", "cpu-detect", "fmt", "atomic", "virtual"}
-STATIC_OK = re.compile(r"^(std_detect::|core::|alloc::|std::panicking|std::alloc|std::rt|std::io::stdio|std::sys::|ppv_lite86::|keccak::|cpufeatures::|sha3::|<|memchr::)")
+DETERMINISTIC_OK = {"intrinsic", "alloc", "panic", "arch", "cpu-detect", "fmt", "atomic", "virtual", "ctor"}
+STATIC_OK = re.compile(r"^(num_bigint::|std_detect::|core::|alloc::|std::panicking|std::alloc|std::rt|std::io::stdio|std::sys::|ppv_lite86::|keccak::|cpufeatures::|sha3::|<|memchr::)")
 
 
 def cone(prog, roots):
@@ -96,7 +99,7 @@ def cone_is_deterministic(R, prog, roots, rule, label, floor_instances=20):
             if e["k"] in ("asm",):
                 opaque.append((prog.inst[i].name, e["k"]))
     for (n, k) in opaque[:5]:
-        if not ARCH.search(n) and not n.startswith("std_detect::") and not n.startswith("core::hint") and "black_box" not in n and not n.startswith("cpufeatures::") and "cpuid" not in n:
+        if not ARCH.search(n) and not n.startswith("std_detect::") and not n.startswith("core::hint") and "black_box" not in n and not n.startswith("cpufeatures::") and "cpuid" not in n and n != "num_bigint::biguint::division::div_wide":
             R.violation(rule, f"{label}: {n}", f"inline assembly in {n}", key=f"{rule}|{label}|asm|{n}")
     R.floor(f"{label}: instances in cone", len(seen), floor_instances)
     R.analysed.setdefault("cones", {})[label] = {"instances": len(seen), "leaves": len(leaves), "classes": {k: len(v) for k, v in by.items()}}
